@@ -866,12 +866,32 @@ func (txn *V2Transaction) EphemeralSiafundOutput(i int) SiafundElement {
 	}
 }
 
+func deepCopyPolicy(p SpendPolicy) SpendPolicy {
+	switch t := p.Type.(type) {
+	case PolicyTypeThreshold:
+		of := slices.Clone(t.Of)
+		for i := range of {
+			of[i] = deepCopyPolicy(of[i])
+		}
+		return SpendPolicy{PolicyTypeThreshold{N: t.N, Of: of}}
+	case PolicyTypeUnlockConditions:
+		uc := UnlockConditions(t)
+		uc.PublicKeys = slices.Clone(uc.PublicKeys)
+		for i := range uc.PublicKeys {
+			uc.PublicKeys[i].Key = slices.Clone(uc.PublicKeys[i].Key)
+		}
+		return SpendPolicy{PolicyTypeUnlockConditions(uc)}
+	}
+	return p
+}
+
 // DeepCopy returns a copy of txn that does not alias any of its memory.
 func (txn *V2Transaction) DeepCopy() V2Transaction {
 	c := *txn
 	c.SiacoinInputs = slices.Clone(c.SiacoinInputs)
 	for i := range c.SiacoinInputs {
 		c.SiacoinInputs[i].Parent = c.SiacoinInputs[i].Parent.Copy()
+		c.SiacoinInputs[i].SatisfiedPolicy.Policy = deepCopyPolicy(c.SiacoinInputs[i].SatisfiedPolicy.Policy)
 		c.SiacoinInputs[i].SatisfiedPolicy.Signatures = slices.Clone(c.SiacoinInputs[i].SatisfiedPolicy.Signatures)
 		c.SiacoinInputs[i].SatisfiedPolicy.Preimages = slices.Clone(c.SiacoinInputs[i].SatisfiedPolicy.Preimages)
 	}
@@ -879,6 +899,7 @@ func (txn *V2Transaction) DeepCopy() V2Transaction {
 	c.SiafundInputs = slices.Clone(c.SiafundInputs)
 	for i := range c.SiafundInputs {
 		c.SiafundInputs[i].Parent = c.SiafundInputs[i].Parent.Copy()
+		c.SiafundInputs[i].SatisfiedPolicy.Policy = deepCopyPolicy(c.SiafundInputs[i].SatisfiedPolicy.Policy)
 		c.SiafundInputs[i].SatisfiedPolicy.Signatures = slices.Clone(c.SiafundInputs[i].SatisfiedPolicy.Signatures)
 		c.SiafundInputs[i].SatisfiedPolicy.Preimages = slices.Clone(c.SiafundInputs[i].SatisfiedPolicy.Preimages)
 	}
@@ -891,11 +912,18 @@ func (txn *V2Transaction) DeepCopy() V2Transaction {
 	c.FileContractResolutions = slices.Clone(c.FileContractResolutions)
 	for i := range c.FileContractResolutions {
 		c.FileContractResolutions[i].Parent = c.FileContractResolutions[i].Parent.Copy()
-		if res, ok := c.FileContractResolutions[i].Resolution.(*V2StorageProof); ok {
+		switch res := c.FileContractResolutions[i].Resolution.(type) {
+		case *V2StorageProof:
 			sp := *res
 			sp.ProofIndex = sp.ProofIndex.Copy()
 			sp.Proof = slices.Clone(sp.Proof)
 			c.FileContractResolutions[i].Resolution = &sp
+		case *V2FileContractRenewal:
+			r := *res
+			c.FileContractResolutions[i].Resolution = &r
+		case *V2FileContractExpiration:
+			e := *res
+			c.FileContractResolutions[i].Resolution = &e
 		}
 	}
 	c.Attestations = slices.Clone(c.Attestations)
@@ -903,6 +931,10 @@ func (txn *V2Transaction) DeepCopy() V2Transaction {
 		c.Attestations[i].Value = slices.Clone(c.Attestations[i].Value)
 	}
 	c.ArbitraryData = slices.Clone(c.ArbitraryData)
+	if c.NewFoundationAddress != nil {
+		a := *c.NewFoundationAddress
+		c.NewFoundationAddress = &a
+	}
 	return c
 }
 
@@ -1541,6 +1573,8 @@ func (sfe SiafundElement) Copy() SiafundElement {
 // element's memory is copied.
 func (fce FileContractElement) Copy() FileContractElement {
 	fce.StateElement = fce.StateElement.Copy()
+	fce.FileContract.ValidProofOutputs = slices.Clone(fce.FileContract.ValidProofOutputs)
+	fce.FileContract.MissedProofOutputs = slices.Clone(fce.FileContract.MissedProofOutputs)
 	return fce
 }
 
@@ -1555,5 +1589,6 @@ func (v2fce V2FileContractElement) Copy() V2FileContractElement {
 // element's memory is copied.
 func (ae AttestationElement) Copy() AttestationElement {
 	ae.StateElement = ae.StateElement.Copy()
+	ae.Attestation.Value = slices.Clone(ae.Attestation.Value)
 	return ae
 }
